@@ -21,15 +21,15 @@ def run(ctx):
     for t, nm in ((0, 'particle-group tuple: scalar+vector+vector<long>+multiR<double,3>'), (1, 'cell-group tuple: scalar+vector'), (2, 'vector<1 byte>+multiV<float,5>+multiR<float,4>'), (3, 'vector<4096 bytes>')):
         S.append(dict(name='memblock.tuple%d' % t, wrapper='w_memblock.cpp', defines=['TUPLE=%d' % t], entry='h_memblock', args=[0, 1, 0, 0, 0, 0], time_limit=300 if q else 1800,
                       note=nm + '; counts forked over {0,1,2,k-1,k,k+1 for k*size in {64,128}, 4096/size(+1), 10^4}, shrink/reuse/regrow, moves', expect_reach=(300, 301, 303, 304, 306, 308),
-                      max_paths=(6000 if q else 10**9)))
+                      max_paths=(4000 if q else 10**9)))
     T = [('bytecopy.d1.h4.n3', D(1, 4, 3, 1), [-4, -1, 0, -1, 0, 0], 200, ''), ('bytecopy.d2.h3.n2', D(2, 3, 2, 1, NEXTRA=1, SYMBOLIC_EXTRA=1), [-3, -1, 0, -1, 0, 0], 200, ''),
-         ('bytecopy.d3.h3.n2', D(3, 3, 2, 1, NRHS=2), [-2, -1, 0, -1, 0, 0], 240, '')]
+         ('bytecopy.d3.h3.n2', D(3, 3, 2, 1, NRHS=2), [2, -1, 0, -1, 0, 0], 240, '')]
     if not q:
         T += [('bytecopy.d2.h4.n3', D(2, 4, 3, 1), [-4, -1, 0, -1, 0, 0], 2400, ''), ('bytecopy.d3.h3.n3.float', D(3, 3, 3, 1, REALT='float'), [-3, -1, 0, -1, 0, 0], 2400, '')]
     for (n, d, a, tl, note) in T:
         S.append(dict(name=n, wrapper='w_tree.cpp', defines=d, entry='h_c14', args=a, time_limit=tl, note=note, expect_reach=(190, 191, 192, 193, 194)))
     ctx.bounds.update(dict(layout='item counts 0..10^4 (symbolic), element sizes {1,4,8,24,32,40,64,4096}, rows {1,3,4,5,8}', memblock='4 block tuples (2 shipped, 2 synthetic), boundary item counts per block (forked)',
-                           trees='Dim 1-3, heights 3-4, 2-3 particles, all block sizes/grouping modes', outside='item counts > 10^4; element types other than the list; in the quick tier the memblock count tuples are capped at 6000 paths per tuple'))
+                           trees='Dim 1-3, heights 3-4, 2-3 particles, all block sizes/grouping modes', outside='item counts > 10^4; element types other than the list; in the quick tier the memblock count tuples are capped at 4000 paths per tuple'))
     ctx.assumptions += ASSUME + ['E1: no memory is accessed in the layout queries (addresses computed from a base pointer)', 'operator new returns 16-byte aligned blocks (not more): stricter alignment assumptions would be reported']
     e2.run_configs(ctx, S)
     return finish(ctx, TEXT, 'one cbmc query per (element size, rows); one irsym query per block tuple / tree family')
